@@ -26,7 +26,7 @@ type c10Tier struct {
 func c10TierOf(name string) c10Tier {
 	switch name {
 	case "quick":
-		return c10Tier{name: name, nGen: envInt("VERIF_C10_NGEN", 48), K: 3, nSim: envInt("VERIF_C10_NSIM", 500), nNative: envInt("VERIF_C10_NNATIVE", 220), cliK: 3,
+		return c10Tier{name: name, nGen: envInt("VERIF_C10_NGEN", 30), K: 3, nSim: envInt("VERIF_C10_NSIM", 360), nNative: envInt("VERIF_C10_NNATIVE", 160), cliK: 3,
 			selfSeeds: 2, selfReps: 10, selfPars: []int{16, 1}, budget: time.Duration(envInt("VERIF_BUDGET_S", 150)) * time.Second}
 	case "thorough":
 		return c10Tier{name: name, nGen: envInt("VERIF_C10_NGEN", 320), K: 8, nSim: envInt("VERIF_C10_NSIM", 14000), nNative: envInt("VERIF_C10_NNATIVE", 3500), cliK: 4,
